@@ -216,6 +216,11 @@ class _Handler(object):
             io.error_line("<info>err-%s</info>" % name, fl)
         q = Question("Name?", "dflt")
         rec["answer"] = q.ask(io)
+        # components that move the cursor on a decorated output (a section that is overwritten): with the no-ANSI
+        # switch they must not emit a single escape byte either
+        sec = io.section()
+        sec.write_line("section line")
+        sec.output.overwrite("section line, rewritten")
         RECORDS.append(rec)
         if self.raises:
             raise RuntimeError("handler failed")
@@ -315,8 +320,11 @@ def run_impl(case):
     cfg = _cfg_of(config.create_io(app, raw, StringInputStream(""), AnsiCapable(), AnsiCapable()))
     if cfg["ansi"] == "off" and "--no-ansi" not in raw.option_tokens:
         cfg["ansi"] = "off?"     # plain formatter although --no-ansi was not given
-    # 2. the whole run on plain buffered streams
+    # 2. the whole run on plain buffered streams (ANSI-capable ones when the no-ANSI switch is given)
     out, err = Buf(), Buf()
+    if "--no-ansi" in raw.option_tokens:
+        # the no-ANSI switch is about streams that COULD show escape sequences: run on such streams
+        out, err = AnsiCapable(), AnsiCapable()
     try:
         status = app.run(ArgvArgs(["prog"] + tokens), StringInputStream("typed\n"), out, err)
         escaped = None
@@ -439,6 +447,8 @@ def oracle(case, obs):
     if cfg["verbosity"] != want_v:
         return "verbosity %s, the switches select %s" % (cfg["verbosity"], want_v)
     if has("--no-ansi"):
+        if any(r["decorated"] for r in obs["records"]):
+            return "--no-ansi: the handler's output reports ANSI support"
         if cfg["ansi"] != "off" or "\x1b" in obs["out"] or "\x1b" in obs["err"]:
             return "--no-ansi: formatter %s, escape bytes present: %s" % (cfg["ansi"], "\x1b" in obs["out"] + obs["err"])
     elif has("--ansi"):
